@@ -62,6 +62,39 @@ pub struct PadCase {
     /// what it is configured with must not leak into the next field
     #[serde(default)]
     before: Option<(u8, bool, bool)>,
+    /// the field under test is `{bar:..W}` instead: progress characters of 1 (false) or 2 (true)
+    /// columns each, position `.1` of 100
+    #[serde(default)]
+    bar: Option<(bool, u8)>,
+}
+
+/// `{bar:W}` is a field like any other: it occupies exactly W columns, and what the W/c cells of c
+/// columns leave over is padding placed by the alignment
+fn run_bar_field(c: &PadCase, wide: bool, pos: u8) -> CaseResult {
+    let chars = if wide { "\u{ff03}\u{ff1e}\u{ff0d}" } else { "#>-" };
+    let cw = if wide { 2 } else { 1 };
+    let width = (c.width % 400) as usize;
+    let template = format!("[{{bar:{}{}{}}}]", c.align.map(|a| a.flag()).unwrap_or(""), width, if c.truncate { "!" } else { "" });
+    let style = catch(|| ProgressStyle::with_template(&template).map(|s| s.progress_chars(chars)))
+        .map_err(|p| Fail::new("panic", format!("with_template({template:?}) panicked: {p}")))?
+        .map_err(|e| Fail::new("rejected", format!("with_template({template:?}) rejected: {e}")))?;
+    let setup = BarSetup { len: Some(100), pos: pos as u64 % 101, cols: u16::MAX, rows: u16::MAX, ..Default::default() };
+    let lines = match render(style, &setup) {
+        Ok(l) => l,
+        Err(RenderErr::Panic(p)) => return Err(Fail::new("panic", format!("rendering {template:?} panicked: {p}"))),
+        Err(RenderErr::Pattern(p)) => return Err(Fail::new("harness", p)),
+    };
+    ensure!(lines.len() == 1, "lines", "template {template:?}: expected one line, got {lines:?}");
+    let inner = lines[0].strip_prefix('[').and_then(|l| l.strip_suffix(']')).ok_or_else(|| Fail::new("brackets", format!("template {template:?}: line {:?} lost the surrounding literal brackets", lines[0])))?;
+    let body = inner.trim_matches(' ');
+    ensure!(body.chars().all(|ch| chars.contains(ch)), "bar_field", "{template:?} with progress chars {chars:?}: field {inner:?} contains something else than progress characters and padding");
+    ensure!(model::cols(body) == width / cw * cw, "bar_field", "{template:?} with progress chars {chars:?}: the bar {body:?} takes {} columns, expected {} cells of {cw}", model::cols(body), width / cw);
+    model::check_pad(body, width, c.align.unwrap_or(Align::Left), false, inner).map_err(|m| Fail::new("bar_field", format!("{template:?} with progress chars {chars:?}: {m}")))?;
+    let mut v = Verdict::default();
+    v.nontrivial = wide && width % 2 == 1;
+    v.label("bar_key_as_field");
+    v.label_if(wide && width % 2 == 1, "bar_cells_leave_a_column_over");
+    Ok(v)
 }
 
 fn classify(v: &mut Verdict, chunks: &[Chunk], content_cols: usize, width: usize, truncate: bool) {
@@ -77,6 +110,9 @@ fn classify(v: &mut Verdict, chunks: &[Chunk], content_cols: usize, width: usize
 }
 
 fn run_pad(c: &PadCase) -> CaseResult {
+    if let Some((wide, pos)) = c.bar {
+        return run_bar_field(c, wide, pos);
+    }
     let content = content_of(&c.chunks);
     let key = match c.via {
         Via::Msg => "msg",
@@ -141,9 +177,10 @@ fn pad_strategy() -> BoxedStrategy<PadCase> {
                 any::<bool>(),
                 prop_oneof![3 => Just(Via::Msg), 1 => Just(Via::Prefix), 2 => Just(Via::Custom)],
                 proptest::option::weighted(0.3, (any::<u8>(), any::<bool>(), any::<bool>())),
+                proptest::option::weighted(0.12, (any::<bool>(), any::<u8>())),
             )
         })
-        .prop_map(|(chunks, width, align, truncate, via, before)| PadCase { chunks, width, align, truncate, via, before })
+        .prop_map(|(chunks, width, align, truncate, via, before, bar)| PadCase { chunks, width, align, truncate, via, before, bar })
         .boxed()
 }
 
@@ -282,7 +319,7 @@ fn decode_pad(u: &mut FuzzInput) -> PadCase {
         8 => u.u16() as u32,
         _ => [0u32, 1, 255, 256, 65535][u.n(4)],
     };
-    PadCase { chunks, width, align: [None, Some(Align::Left), Some(Align::Center), Some(Align::Right)][u.n(3)], truncate: u.bool(), via: [Via::Msg, Via::Prefix, Via::Custom][u.n(2)], before: if u.n(3) == 0 { Some((u.u8(), u.bool(), u.bool())) } else { None } }
+    PadCase { chunks, width, align: [None, Some(Align::Left), Some(Align::Center), Some(Align::Right)][u.n(3)], truncate: u.bool(), via: [Via::Msg, Via::Prefix, Via::Custom][u.n(2)], before: if u.n(3) == 0 { Some((u.u8(), u.bool(), u.bool())) } else { None }, bar: if u.n(7) == 0 { Some((u.bool(), u.u8())) } else { None } }
 }
 
 fn decode_wide(u: &mut FuzzInput) -> WideCase {
@@ -305,12 +342,12 @@ pub fn property() -> Property {
         parts: vec![
             Box::new(Gen::<PadCase> {
                 name: "field",
-                rule: "content = 0-4 chunks (ASCII, multi-byte single-width, double-width, SGR-wrapped) through {msg}/{prefix}/a custom key with width around the content width / small / any u16, every alignment, '!' on/off; compared cell-wise with the reference field; non-trivial = non-ASCII or SGR content on the padding or truncation path",
+                rule: "content = 0-4 chunks (ASCII, multi-byte single-width, double-width, SGR-wrapped) through {msg}/{prefix}/a custom key with width around the content width / small / any u16, every alignment, '!' on/off, or the {bar:W} key with 1- or 2-column progress characters (W columns exactly, cells of whole characters, the rest placed by the alignment); compared cell-wise with the reference field; non-trivial = non-ASCII or SGR content on the padding or truncation path",
                 strategy: |_| pad_strategy(),
                 cases: |t| t.pick(36_000, 2_000_000),
                 run: run_pad,
                 signature: no_signature,
-                essential: &["truncation_path", "truncation_non_ascii_or_sgr", "padding_path", "overflow_unshortened", "double_width", "sgr"],
+                essential: &["truncation_path", "truncation_non_ascii_or_sgr", "padding_path", "overflow_unshortened", "double_width", "sgr", "second_field_of_the_template", "bar_key_as_field", "bar_cells_leave_a_column_over"],
                 workers: w,
                 decode: Some(decode_pad),
             }),
